@@ -397,6 +397,9 @@ func (v *Vue) callFunc(ctx *VueContext, fn any, args ...any) (any, error) {
 			// conversion would turn the number 3 into the character U+0003.
 			in[i] = converted
 		} else if argVal.Type().ConvertibleTo(argType) {
+			if integerOverflows(argVal, argType) {
+				return nil, fmt.Errorf("cannot convert argument %d: %v does not fit %v", i, arg, argType)
+			}
 			in[i] = argVal.Convert(argType)
 		} else {
 			return nil, fmt.Errorf("cannot convert argument %d from %v to %v", i, argVal.Type(), argType)
@@ -428,6 +431,29 @@ func (v *Vue) callFunc(ctx *VueContext, fn any, args ...any) (any, error) {
 	}
 }
 
+// integerOverflows reports whether converting the integer v to the integer type t
+// would silently wrap around.
+func integerOverflows(v reflect.Value, t reflect.Type) bool {
+	zero := reflect.Zero(t)
+	switch t.Kind() {
+	case reflect.Int, reflect.Int8, reflect.Int16, reflect.Int32, reflect.Int64:
+		switch v.Kind() {
+		case reflect.Int, reflect.Int8, reflect.Int16, reflect.Int32, reflect.Int64:
+			return zero.OverflowInt(v.Int())
+		case reflect.Uint, reflect.Uint8, reflect.Uint16, reflect.Uint32, reflect.Uint64:
+			return v.Uint() > 1<<63-1 || zero.OverflowInt(int64(v.Uint()))
+		}
+	case reflect.Uint, reflect.Uint8, reflect.Uint16, reflect.Uint32, reflect.Uint64:
+		switch v.Kind() {
+		case reflect.Int, reflect.Int8, reflect.Int16, reflect.Int32, reflect.Int64:
+			return v.Int() < 0 || zero.OverflowUint(uint64(v.Int()))
+		case reflect.Uint, reflect.Uint8, reflect.Uint16, reflect.Uint32, reflect.Uint64:
+			return zero.OverflowUint(v.Uint())
+		}
+	}
+	return false
+}
+
 // convertValue attempts common type conversions
 func convertValue(val reflect.Value, targetType reflect.Type) (reflect.Value, bool) {
 	// Handle string to basic types
@@ -435,11 +461,11 @@ func convertValue(val reflect.Value, targetType reflect.Type) (reflect.Value, bo
 		s := val.String()
 		switch targetType.Kind() {
 		case reflect.Int, reflect.Int8, reflect.Int16, reflect.Int32, reflect.Int64:
-			if i, err := strconv.ParseInt(s, 10, 64); err == nil {
+			if i, err := strconv.ParseInt(s, 10, targetType.Bits()); err == nil {
 				return reflect.ValueOf(i).Convert(targetType), true
 			}
 		case reflect.Uint, reflect.Uint8, reflect.Uint16, reflect.Uint32, reflect.Uint64:
-			if u, err := strconv.ParseUint(s, 10, 64); err == nil {
+			if u, err := strconv.ParseUint(s, 10, targetType.Bits()); err == nil {
 				return reflect.ValueOf(u).Convert(targetType), true
 			}
 		case reflect.Float32, reflect.Float64:
